@@ -126,20 +126,34 @@ macro_rules! flatten_runner {
         let table: Arc<Mutex<Vec<Traced>>> = Arc::new(Mutex::new(vec![]));
         let probe = OuterProbe { log: log.clone() };
         let by_map = api == "flat_map" || api == "concat_map";
-        let _sub: Box<dyn std::any::Any> = match api {
-          "merge_all" => Box::new(outer_obs.clone().$merge_all(limit).actual_subscribe(probe)),
-          "concat_all" => Box::new(outer_obs.clone().$concat_all().actual_subscribe(probe)),
-          "flatten" => Box::new(outer_obs.clone().$flatten().actual_subscribe(probe)),
+        // how the case ends the subscription: (u) calls unsubscribe(), (ud) drops a guard obtained
+        // from unsubscribe_when_dropped()
+        let use_guard = body[2].args().iter().any(|st| st.head() == "ud");
+        macro_rules! keep {
+          ($sub:expr) => {{
+            let sub = $sub;
+            if use_guard {
+              let g = sub.unsubscribe_when_dropped();
+              Box::new(move || drop(g)) as Box<dyn FnOnce()>
+            } else {
+              Box::new(move || sub.unsubscribe()) as Box<dyn FnOnce()>
+            }
+          }};
+        }
+        let mut ender: Option<Box<dyn FnOnce()>> = Some(match api {
+          "merge_all" => keep!(outer_obs.clone().$merge_all(limit).actual_subscribe(probe)),
+          "concat_all" => keep!(outer_obs.clone().$concat_all().actual_subscribe(probe)),
+          "flatten" => keep!(outer_obs.clone().$flatten().actual_subscribe(probe)),
           "flat_map" => {
             let t = table.clone();
-            Box::new(outer_idx.clone().$flat_map(move |v: Val| t.lock().unwrap()[v.z() as usize].clone()).actual_subscribe(probe))
+            keep!(outer_idx.clone().$flat_map(move |v: Val| t.lock().unwrap()[v.z() as usize].clone()).actual_subscribe(probe))
           }
           "concat_map" => {
             let t = table.clone();
-            Box::new(outer_idx.clone().$concat_map(move |v: Val| t.lock().unwrap()[v.z() as usize].clone()).actual_subscribe(probe))
+            keep!(outer_idx.clone().$concat_map(move |v: Val| t.lock().unwrap()[v.z() as usize].clone()).actual_subscribe(probe))
           }
           a => panic!("bad flatten api {a}"),
-        };
+        });
         for (j, st) in body[2].args().iter().enumerate() {
           log.lock().unwrap().push(F::Mark(j));
           let a = st.args();
@@ -194,10 +208,19 @@ macro_rules! flatten_runner {
               };
               crate::chain::$chain::emit(&s, e);
             }
+            "u" | "ud" => {
+              if let Some(f) = ender.take() {
+                f();
+              }
+            }
             h => panic!("bad flatten stimulus {h}"),
           }
         }
         let r = show(&log.lock().unwrap());
+        // a guard still held is leaked deliberately: dropping it here would unsubscribe
+        if let Some(f) = ender.take() {
+          std::mem::forget(f);
+        }
         r
       }
     }
